@@ -737,7 +737,12 @@ pub fn run(ctx: Ctx) -> ! {
         let case = case.clone();
         let mut l = ctx.local();
         l.tick();
-        if case["family"].as_str() == Some("sign") {
+        if case["family"].as_str() == Some("clock") {
+            // the clock family is tiny: replaying it means running it
+            drop(l);
+            clock_family(&ctx);
+            finish(ctx);
+        } else if case["family"].as_str() == Some("sign") {
             let sc = SignCase::from_json(&case);
             match sign_one(&sc) {
                 Ok(class) => {
@@ -776,7 +781,52 @@ pub fn run(ctx: Ctx) -> ! {
     }
     sign_family(&ctx);
     verify_family(&ctx);
+    clock_family(&ctx);
     finish(ctx)
+}
+
+/// How the system clock reaches `verify_*`: `TimeSigned::try_from(SystemTime)`.
+/// A clock reading of s seconds and n nanoseconds is second s (the window
+/// test of RFC 8945 counts whole seconds); readings before the epoch or at
+/// 2^48 s and beyond are unrepresentable. Whole seconds across the 48-bit
+/// range x sub-second parts from 0 to 999 999 999 ns.
+fn clock_family(ctx: &Ctx) {
+    use std::time::{Duration, SystemTime};
+    let mut l = ctx.local();
+    let mut secs: Vec<u64> = vec![0, 1, 59, NOW0 - 301, NOW0 - 300, NOW0, NOW0 + 300, NOW0 + 301, 1_670_000_000, 1_999_999_999, 2_000_000_000, T48_MAX - 1, T48_MAX];
+    for k in 8..48u32 {
+        secs.push((1u64 << k) - 1);
+        secs.push(1u64 << k);
+    }
+    let nanos: [u32; 14] = [0, 1, 999, 1_000_000, 499_999_999, 500_000_000, 500_000_001, 900_000_000, 999_000_000, 999_999_000, 999_999_880, 999_999_900, 999_999_998, 999_999_999];
+    for &s in &secs {
+        for &n in &nanos {
+            l.tick();
+            let Some(t) = SystemTime::UNIX_EPOCH.checked_add(Duration::new(s, n)) else { continue };
+            match TimeSigned::try_from(t) {
+                Ok(ts) if ts.to_unix_time() == s => {}
+                other => l.violation("clock-conversion", json!({"family": "clock", "seconds": s, "nanos": n, "converted": other.ok().map(|t| t.to_unix_time())})),
+            }
+        }
+    }
+    l.outcome("clock|converted", || json!({"family": "clock", "seconds": secs.len(), "sub_second_parts": nanos.len()}));
+    for (s, n) in [(T48_MAX + 1, 0u32), (T48_MAX + 1, 999_999_999), (1u64 << 50, 0)] {
+        l.tick();
+        if let Some(t) = SystemTime::UNIX_EPOCH.checked_add(Duration::new(s, n)) {
+            if let Ok(ts) = TimeSigned::try_from(t) {
+                l.violation("clock-conversion-out-of-range", json!({"family": "clock", "seconds": s, "nanos": n, "converted": ts.to_unix_time()}));
+            }
+        }
+    }
+    for d in [Duration::new(0, 1), Duration::new(1, 0), Duration::new(1 << 40, 5)] {
+        l.tick();
+        if let Some(t) = SystemTime::UNIX_EPOCH.checked_sub(d) {
+            if let Ok(ts) = TimeSigned::try_from(t) {
+                l.violation("clock-conversion-out-of-range", json!({"family": "clock", "before_epoch_by": format!("{d:?}"), "converted": ts.to_unix_time()}));
+            }
+        }
+    }
+    l.outcome("clock|unrepresentable-rejected", || json!({"family": "clock"}));
 }
 
 fn finish(ctx: Ctx) -> ! {
@@ -785,7 +835,7 @@ fn finish(ctx: Ctx) -> ! {
     ctx.assume("oracle decisions: accept iff MAC length allowed (RFC 8945 §5.2.2.1) and MAC equals the prefix of the reference MAC and |now - time signed| <= fudge; error kind follows the RFC order length > MAC > time; a TSIG RR with CLASS != ANY or TTL != 0 whose MAC matches is undetermined");
     ctx.finish(
         "exploration",
-        "sign: {11 Writer scripts (no question, EDNS, compression off / case-preserving, 255-octet QNAME, 1.7 kB answer, ...)} x {3 key names incl. one compressible against the QNAME and a 255-octet one} x {Request, Response, Subsequent x 4 prior MACs, Unsigned x known/unknown algorithm} x {SHA-1, SHA-256} x {key lengths around the HMAC block size} x {original ID = / != ID} x {error 0,16,17,18} x {3 time/fudge/server-time triples incl. range ends} x {limit 65535, 512}: output decoded independently, TSIG RDATA fields and MAC compared with the harness's RFC 8945 section 4.3 computation, prefix compared with the TSIG-less message. verify: reference-signed messages over the same scripts x modes x algorithms x keys, with EVERY MAC length 0..full+1 x window-edge (now, time signed, fudge) triples x error/other-data variants, far skews (every power of two of the 48-bit range and sums with 2^16/2^31/2^32/2^33, +- fudge, +- 1, both directions, anchored at 0, 2^48-1 and a present-day time), wrong key / prior MAC / mode, and EVERY single-octet XOR corruption (4 masks quick; 8 single bits + 0xff thorough) of the whole message incl. TSIG RR; verdict of ReadTsigRr::verify_* compared with an oracle that re-derives accept/reject and the error kind from the octets",
+        "sign: {11 Writer scripts (no question, EDNS, compression off / case-preserving, 255-octet QNAME, 1.7 kB answer, ...)} x {3 key names incl. one compressible against the QNAME and a 255-octet one} x {Request, Response, Subsequent x 4 prior MACs, Unsigned x known/unknown algorithm} x {SHA-1, SHA-256} x {key lengths around the HMAC block size} x {original ID = / != ID} x {error 0,16,17,18} x {3 time/fudge/server-time triples incl. range ends} x {limit 65535, 512}: output decoded independently, TSIG RDATA fields and MAC compared with the harness's RFC 8945 section 4.3 computation, prefix compared with the TSIG-less message. verify: reference-signed messages over the same scripts x modes x algorithms x keys, with EVERY MAC length 0..full+1 x window-edge (now, time signed, fudge) triples x error/other-data variants, far skews (every power of two of the 48-bit range and sums with 2^16/2^31/2^32/2^33, +- fudge, +- 1, both directions, anchored at 0, 2^48-1 and a present-day time), wrong key / prior MAC / mode, and EVERY single-octet XOR corruption (4 masks quick; 8 single bits + 0xff thorough) of the whole message incl. TSIG RR; the clock conversion TimeSigned::try_from(SystemTime) over whole seconds across the 48-bit range x 14 sub-second parts (second s, n ns => s); verdict of ReadTsigRr::verify_* compared with an oracle that re-derives accept/reject and the error kind from the octets",
         true,
     )
 }
